@@ -220,13 +220,32 @@ def run_workers(ck, names, nrep, env_extra=None, tag="w", skip0=()):
         if the last record is a 'start' that is older than the call timeout, the worker is killed (exit 98)."""
         import time as _t
         t0 = _t.time()
+        tick = os.sysconf("SC_CLK_TCK")
+
+        def cpu():
+            try:
+                f = open("/proc/%d/stat" % p.pid).read().rsplit(")", 1)[1].split()
+                return (int(f[11]) + int(f[12])) / tick
+            except Exception:
+                return None
+        mark = (None, None)          # (mtime of the record file, worker CPU seconds when that mtime was first seen)
         while p.poll() is None:
             _t.sleep(0.5)
             hung = False
             try:
-                if out.exists() and _t.time() - out.stat().st_mtime > CALL_TIMEOUT * factor:
-                    lines = out.read_text().splitlines()
-                    hung = bool(lines) and json.loads(lines[-1]).get("status") == "start"
+                if out.exists():
+                    mt = out.stat().st_mtime
+                    if mark[0] != mt:
+                        mark = (mt, cpu())
+                    wall = _t.time() - mt
+                    if wall > CALL_TIMEOUT * factor:
+                        # the deadline is counted in CPU time of the worker (a spinning kernel burns CPU; a worker that is
+                        # merely descheduled on a loaded machine does not), with a wall-clock cap for calls that block
+                        c = cpu()
+                        spent = (c - mark[1]) if (c is not None and mark[1] is not None) else wall
+                        if spent > 0.9 * CALL_TIMEOUT * factor or wall > 8 * CALL_TIMEOUT * factor:
+                            lines = out.read_text().splitlines()
+                            hung = bool(lines) and json.loads(lines[-1]).get("status") == "start"
             except Exception:
                 hung = False
             if hung or _t.time() - t0 > 2400:
@@ -257,6 +276,10 @@ def run_workers(ck, names, nrep, env_extra=None, tag="w", skip0=()):
                 break
             st["skip"] = {"%s|%s|%d" % k for k in done} | st["skip"] | {"%s|%s|%d" % (pending[-1]["name"], pending[-1]["variant"], pending[-1]["rep"])}
             st["respawns"] += 1
+            # marker: the record file's last line must not be the stale 'start' of the call that was just abandoned
+            # (the fresh worker would be taken for hung before it has written anything)
+            with open(st["out"], "a") as fm:
+                fm.write(json.dumps({"name": None, "variant": None, "rep": -1, "status": "respawn"}) + "\n")
             st["p"] = spawn(st["ch"], st["out"], st["skip"])
         records += read(st["out"])
     return records, crashes
@@ -357,6 +380,8 @@ def run(ck):
                       "distinct by (routine, variant, repetition)")
     ck.coq_build(extra_dirs=["C02", "C01", "C09", "C12", "C13", "C16", "C17"])
     ck.overlay()
+    from . import c20_kernels
+    c20_kernels.run(ck)   # correspondence for coq/C20/Kernels.v (histogram.pyx, _graph.pyx dilation)
     purity(ck)
     sanitizers(ck)     # both tiers: the sanitizer overlay is cached by content hash; quick drives each kernel entry once
     ck.trust.append("purity half is a check on sampled calls, not a theorem about the code; memory safety of the compiled binary as such "
